@@ -54,17 +54,21 @@ type micro struct {
 type recorder struct {
 	util.ChangeCollectorI
 	log *[]micro
+	org map[string]int64
 }
 
 func (r *recorder) AddChange(o, n util.Node) {
 	m := micro{add: true, new: n.GetHash()}
+	r.org[m.new] = int64(n.GetOrigin())
 	if o != nil {
 		m.old = o.GetHash()
+		r.org[m.old] = int64(o.GetOrigin())
 	}
 	*r.log = append(*r.log, m)
 	r.ChangeCollectorI.AddChange(o, n)
 }
 func (r *recorder) DeleteChange(o util.Node) {
+	r.org[o.GetHash()] = int64(o.GetOrigin())
 	*r.log = append(*r.log, micro{old: o.GetHash()})
 	r.ChangeCollectorI.DeleteChange(o)
 }
@@ -158,6 +162,7 @@ func allNodes(ndb util.NodeDB, root []byte) (hashes []string, origins map[string
 }
 
 type result struct {
+	org      map[string]int64 // origin of every node hash seen
 	blocks   []*blockRec
 	readable [][]bool // after every prune step: per finalized block, full iteration succeeded
 	pruneAt  []int    // index into blocks (number of blocks finalized) at each prune
@@ -196,6 +201,7 @@ func run(h hist, scratch string, kinds map[string]int) (res result) {
 	gr.Finalize(gb)
 	c.SetLatestFinalizedBlock(gb)
 
+	res.org = map[string]int64{}
 	prev := gb
 	want := map[int]string{}
 	rnd := h.Start
@@ -212,7 +218,7 @@ func run(h hist, scratch string, kinds map[string]int) (res result) {
 			st8 := block.CreateStateWithPreviousBlock(prev, pndb, b.Round)
 			rec := &blockRec{round: rnd}
 			mpt := st8.(*util.MerklePatriciaTrie)
-			mpt.ChangeCollector = &recorder{ChangeCollectorI: mpt.ChangeCollector, log: &rec.micros}
+			mpt.ChangeCollector = &recorder{ChangeCollectorI: mpt.ChangeCollector, log: &rec.micros, org: res.org}
 			b.ClientState = st8
 			for _, o := range st.Ops {
 				if o.V == "" {
@@ -242,9 +248,11 @@ func run(h hist, scratch string, kinds map[string]int) (res result) {
 			_, changes, _, _ := st8.GetChanges()
 			for _, ch := range changes {
 				rec.adds = append(rec.adds, ch.New.GetHash())
+				res.org[ch.New.GetHash()] = int64(ch.New.GetOrigin())
 			}
 			for _, d := range st8.GetDeletes() {
 				rec.dels = append(rec.dels, d.GetHash())
+				res.org[d.GetHash()] = int64(d.GetOrigin())
 			}
 			sort.Strings(rec.adds)
 			sort.Strings(rec.dels)
@@ -264,6 +272,9 @@ func run(h hist, scratch string, kinds map[string]int) (res result) {
 			}
 			var ok bool
 			rec.nodeSet, rec.origins, ok = allNodes(pndb, rec.root)
+			for k, v := range rec.origins {
+				res.org[k] = v
+			}
 			if !ok {
 				res.fail = "finalized-state-not-in-persistent-db"
 				return
@@ -336,6 +347,14 @@ func oracle(h hist, res result, kinds map[string]int) string {
 
 func coqCase(h hist, res result) string {
 	t := &ids{m: map[string]int{}}
+	hs := func(x string) string { return vh.Pair(vh.Z(res.org[x]), vh.Z(int64(t.id(x)))) }
+	hl := func(xs []string) string {
+		out := make([]string, len(xs))
+		for i, x := range xs {
+			out[i] = hs(x)
+		}
+		return vh.List(out)
+	}
 	var steps []string
 	bi := 0
 	pi := 0
@@ -352,24 +371,14 @@ func coqCase(h hist, res result) string {
 				if m.add {
 					o := "None"
 					if m.old != "" {
-						o = vh.Some(vh.Z(int64(t.id(m.old))))
+						o = vh.Some(hs(m.old))
 					}
-					ms = append(ms, fmt.Sprintf("(McAdd %s %s)", o, vh.Z(int64(t.id(m.new)))))
+					ms = append(ms, fmt.Sprintf("(McAdd %s %s)", o, hs(m.new)))
 				} else {
-					ms = append(ms, fmt.Sprintf("(McDel %s)", vh.Z(int64(t.id(m.old)))))
+					ms = append(ms, fmt.Sprintf("(McDel %s)", hs(m.old)))
 				}
 			}
-			var adds, dels, nodes []int64
-			for _, a := range br.adds {
-				adds = append(adds, int64(t.id(a)))
-			}
-			for _, d := range br.dels {
-				dels = append(dels, int64(t.id(d)))
-			}
-			for _, n := range br.nodeSet {
-				nodes = append(nodes, int64(t.id(n)))
-			}
-			steps = append(steps, fmt.Sprintf("(PsBlock %s %s %s %s %s)", vh.Z(int64(br.round)), vh.List(ms), vh.ZList(adds), vh.ZList(dels), vh.ZList(nodes)))
+			steps = append(steps, fmt.Sprintf("(PsBlock %s %s %s %s %s)", vh.Z(int64(br.round)), vh.List(ms), hl(br.adds), hl(br.dels), hl(br.nodeSet)))
 		case "prune":
 			if pi >= len(res.readable) {
 				continue
